@@ -191,6 +191,10 @@ fn specials() -> Vec<Special> {
         Special { what: "a two-file import cycle terminates with an error", files: vec![("D0/a.libsonnet", b"import \"b.libsonnet\"".to_vec()), ("D0/b.libsonnet", b"import \"a.libsonnet\"".to_vec())], symlinks: vec![], dirs: vec![], main: "import \"a.libsonnet\"", jpaths: vec![], want: None, traces: None, stderr_has: None },
         Special { what: "a file importing itself terminates with an error", files: vec![("D0/s.libsonnet", b"import \"s.libsonnet\"".to_vec())], symlinks: vec![], dirs: vec![], main: "import \"s.libsonnet\"", jpaths: vec![], want: None, traces: None, stderr_has: None },
         Special { what: "a lazy cycle is fine", files: vec![("D0/a.libsonnet", b"{x: 1, y: (import \"b.libsonnet\").z}".to_vec()), ("D0/b.libsonnet", b"{z: (import \"a.libsonnet\").x}".to_vec())], symlinks: vec![], dirs: vec![], main: "(import \"a.libsonnet\").y", jpaths: vec![], want: Some("1"), traces: None, stderr_has: None },
+        Special { what: "a symlink loop in the importer's directory is an unreadable file, not a miss", files: vec![("J1/x.libsonnet", b"\"from-J1\"".to_vec())], symlinks: vec![("D0/x.libsonnet", "x.libsonnet")], dirs: vec![], main: "import \"x.libsonnet\"", jpaths: vec!["J1"], want: None, traces: None, stderr_has: Some("main.jsonnet:1:") },
+        Special { what: "a symlink loop in a higher-priority -J location is an unreadable file, not a miss", files: vec![("J1/x.libsonnet", b"\"from-J1\"".to_vec())], symlinks: vec![("J2/x.libsonnet", "x.libsonnet")], dirs: vec!["J2"], main: "importstr \"x.libsonnet\"", jpaths: vec!["J1", "J2"], want: None, traces: None, stderr_has: Some("main.jsonnet:1:") },
+        Special { what: "a symlink loop in a lower-priority location does not matter", files: vec![("J2/x.libsonnet", b"\"from-J2\"".to_vec())], symlinks: vec![("J1/x.libsonnet", "x.libsonnet")], dirs: vec!["J1"], main: "import \"x.libsonnet\"", jpaths: vec!["J1", "J2"], want: Some("\"from-J2\""), traces: None, stderr_has: None },
+        Special { what: "a dangling symlink in a higher-priority location is a miss there", files: vec![("J1/x.libsonnet", b"\"from-J1\"".to_vec())], symlinks: vec![("D0/x.libsonnet", "nowhere")], dirs: vec![], main: "import \"x.libsonnet\"", jpaths: vec!["J1"], want: Some("\"from-J1\""), traces: None, stderr_has: None },
         Special { what: "dangling symlink is a missing file", files: vec![], symlinks: vec![("D0/x.libsonnet", "nowhere")], dirs: vec![], main: "import \"x.libsonnet\"", jpaths: vec![], want: None, traces: None, stderr_has: Some("main.jsonnet:1:") },
         Special { what: "import of a directory is an error at the import site", files: vec![], symlinks: vec![], dirs: vec!["D0/x.libsonnet"], main: "local a = 1;\n  importstr \"x.libsonnet\"", jpaths: vec![], want: None, traces: None, stderr_has: Some("main.jsonnet:2:3") },
         Special { what: "a directory in a higher-priority location is an unreadable file, not a miss (importer's directory)", files: vec![("J1/x.libsonnet", b"\"from-J1\"".to_vec())], symlinks: vec![], dirs: vec!["D0/x.libsonnet"], main: "import \"x.libsonnet\"", jpaths: vec!["J1"], want: None, traces: None, stderr_has: Some("main.jsonnet:1:") },
